@@ -1,5 +1,6 @@
 SPECIFICATION Spec
 CONSTANTS ApfMode = "quick"
+          NegFail = FALSE
           MaxDepth = 5
 INVARIANTS InStep GateSound AckSound
 VIEW View
